@@ -271,6 +271,34 @@ def _ntc_ens(c):
         "release.nothing_cancelled_unless_conditional": z3.Implies(z3.Not(cond), c.post.c_len(TaskList, can) == 0),
         # C07: for a conditional at most one child is released, it is a child, and its weight is positive
         "cond.at_most_one": z3.Implies(cond, c.post.c_len(TaskList, rel) <= 1),
+        # C07: exactly one child is released - unless no child can run at all (every weight is zero), then none
+        "cond.exactly_one_unless_no_child_can_run": z3.Implies(
+            cond,
+            z3.Or(
+                c.post.c_len(TaskList, rel) == 1,
+                z3.And(c.post.c_len(TaskList, rel) == 0, z3.ForAll([j], z3.Implies(z3.And(0 <= j, j < n_children(c.pre, g, t)), c.pre.rd(child_at(c.pre, g, t, j), TASK, "_probability")[1] <= EPS), patterns=[child_at(c.pre, g, t, j)])),
+            ),
+        ),
+        # C07: the branch of every child that is not the released one is cancelled: each such child is CANCELLED on return
+        "cond.children_not_taken_are_cancelled": z3.Implies(
+            cond,
+            z3.ForAll(
+                [j],
+                z3.Implies(
+                    z3.And(0 <= j, j < n_children(c.pre, g, t)),
+                    z3.Or(z3.And(c.post.c_len(TaskList, rel) == 1, child_at(c.pre, g, t, j) == c.post.l_elem(TaskList, rel, 0)), task_state(c.post, child_at(c.pre, g, t, j)) == CANCELLED),
+                ),
+                patterns=[child_at(c.pre, g, t, j)],
+            ),
+        ),
+        # what is reported as cancelled IS cancelled now, with the finish time as its cancellation time; the lists are fresh
+        "cancelled.are_cancelled_at_finish_time": z3.ForAll(
+            [x],
+            z3.Implies(c.post.l_mem(TaskList, can, x), z3.And(0 < x, task_state(c.post, x) == CANCELLED, c.post.rd(x, TASK, "_cancellation_time")[1] == T.opt_some(OptET, c.arg("finish_time")))),
+            patterns=[c.post.l_mem(TaskList, can, x)],
+        ),
+        "released.are_old_tasks": z3.ForAll([x], z3.Implies(c.post.l_mem(TaskList, rel, x), z3.And(0 < x, x < c.alloc0)), patterns=[c.post.l_mem(TaskList, rel, x)]),
+        "lists.fresh_and_distinct": z3.And(rel >= c.alloc0, can >= c.alloc0, rel != can),
         "cond.released_is_positive_weight_child": z3.Implies(
             z3.And(cond, c.post.c_len(TaskList, rel) == 1),
             z3.And(is_child(c.post.l_elem(TaskList, rel, 0)), c.pre.rd(c.post.l_elem(TaskList, rel, 0), TASK, "_probability")[1] > 0),
@@ -332,11 +360,34 @@ def _ntc_loop2_mod(c):
     return out
 
 
-def _ntc_cond_loop_inv(c, L):
-    h = c.post
-    rel = L.var("released_tasks")
-    can = L.var("cancelled_tasks")
-    return {"lists_fresh": z3.And(rel >= c.alloc0, can >= c.alloc0, rel != can), "nothing_released_yet": h.c_len(TaskList, rel) == 0}
+def _ntc_cond_loop_inv(which):
+    """the two loops of the conditional branch: 0 = no child can run, every child's branch is cancelled;
+    1 = one child was drawn, the branch of every OTHER child is cancelled (C07)"""
+
+    def inv(c, L):
+        h = c.post
+        g, t, ft = c.arg("self"), c.arg("task"), c.arg("finish_time")
+        rel = L.var("released_tasks")
+        can = L.var("cancelled_tasks")
+        cl0 = c.pre.d_val(Adj, g_children(c.pre, g), t)
+        x, j = z3.Int(H.fresh_name("ncl_x")), z3.Int(H.fresh_name("ncl_j"))
+        cj = c.pre.l_elem(TaskList, cl0, j)
+        spared = (cj == L.var("child_to_release")) if which == 1 else z3.BoolVal(False)
+        return {
+            "lists_fresh": z3.And(rel >= c.alloc0, can >= c.alloc0, rel != can, rel < c.run.cur_alloc(), can < c.run.cur_alloc()),
+            "nothing_released_yet": h.c_len(TaskList, rel) == 0,
+            "iterating_over_the_children": z3.And(L.seq.z == cl0, h.c_len(TaskList, cl0) == c.pre.c_len(TaskList, cl0), h.l_elems(TaskList, cl0) == c.pre.l_elems(TaskList, cl0)),
+            # what is reported as cancelled IS cancelled, at the finish time
+            "cancelled_carry_time": z3.ForAll(
+                [x],
+                z3.Implies(h.l_mem(TaskList, can, x), z3.And(0 < x, x < c.run.cur_alloc(), task_state(h, x) == CANCELLED, h.rd(x, TASK, "_cancellation_time")[1] == T.opt_some(OptET, ft))),
+                patterns=[h.l_mem(TaskList, can, x)],
+            ),
+            # every child passed so far, except the drawn one, is CANCELLED now
+            "earlier_children_cancelled": z3.ForAll([j], z3.Implies(z3.And(0 <= j, j < L.i), z3.Or(spared, task_state(h, cj) == CANCELLED)), patterns=[c.pre.l_elem(TaskList, cl0, j)]),
+        }
+
+    return inv
 
 
 def _ntc_cond_loop_mod(c):
@@ -403,12 +454,12 @@ Contract(
     params={"self": TGR, "task": S_.Task.ty, "finish_time": _ETy},
     ret=TL2,
     requires=_ntc_requires,
-    may_raise=("RuntimeError", "ValueError", "IndexError"),
+    may_raise=("RuntimeError", "ValueError", "IndexError", "AttributeError"),
     raise_unchanged=False,
     modifies=_ntc_mod,
     loops={
-        0: Loop(inv=_ntc_cond_loop_inv, modifies=_ntc_cond_loop_mod),
-        1: Loop(inv=_ntc_cond_loop_inv, modifies=_ntc_cond_loop_mod),
+        0: Loop(inv=_ntc_cond_loop_inv(0), modifies=_ntc_cond_loop_mod),
+        1: Loop(inv=_ntc_cond_loop_inv(1), modifies=_ntc_cond_loop_mod),
         2: Loop(inv=_ntc_loop2_inv, modifies=_ntc_loop2_mod, lemmas=_ntc_lemmas),
     },
     locals={"released_tasks": TaskList, "cancelled_tasks": TaskList},
